@@ -3,6 +3,7 @@
 # Applies a patch to a scratch worktree of /repo (never /repo itself), runs the named quick
 # checks against it, prints their verdict lines, removes the worktree. The build cache of
 # the slot (/verif/.cache/mut<SLOT>) is reused between calls; CLEAN=1 removes it.
+# VERIF_CHECK=<path to a check script> runs a snapshot of the harness instead of /verif/check.
 set -u
 PATCH="$(readlink -f "$1")"; shift
 SLOT="${SLOT:-0}"
@@ -10,7 +11,8 @@ WT="/tmp/fvmut-wt-$SLOT"
 git -C /repo worktree remove --force "$WT" >/dev/null 2>&1
 rm -rf "$WT"
 git -C /repo worktree add -q --detach "$WT" HEAD || exit 2
-if ! git -C "$WT" apply "$PATCH"; then echo "patch does not apply"; git -C /repo worktree remove --force "$WT"; exit 2; fi
+# patches made against an older commit: fall back to a 3-way apply
+if ! git -C "$WT" apply "$PATCH" 2>/dev/null && ! git -C "$WT" apply -3 "$PATCH"; then echo "patch does not apply"; git -C /repo worktree remove --force "$WT"; exit 2; fi
 export FLOUNDER_REPO="$WT"
 export VERIF_DIR="/tmp/fvmut-verif-$SLOT"
 rm -rf "$VERIF_DIR"; mkdir -p "$VERIF_DIR"
@@ -20,7 +22,7 @@ mkdir -p "$VERIF_CACHE"
 rc=0
 for id in "$@"; do
   echo "=== $id against $(basename "$PATCH") ==="
-  /verif/check "$id" --tier "${TIER:-quick}" > "$VERIF_DIR/out.txt" 2>&1
+  "${VERIF_CHECK:-/verif/check}" "$id" --tier "${TIER:-quick}" > "$VERIF_DIR/out.txt" 2>&1
   code=$?
   grep -E "^\[|VIOLATION|KNOWN|OK property|harness error|class=|^error|^scenario" "$VERIF_DIR/out.txt" | cut -c1-400 | head -12
   echo "exit=$code"
